@@ -67,9 +67,11 @@ theorem lim_wk (wk pdow : List Int) (x : Inst) (hx : DateIn x) (hwk : ∀ w ∈ 
     (wk.isEmpty || ((match pdow with
         | [] => true
         | k :: _ => k == ((wdayOf (dayOf x) : Nat) : Int)) &&
-      wk.any (fun k => (ywdToMd x.y k (wdayOf (dayOf x))).m == x.m && (ywdToMd x.y k (wdayOf (dayOf x))).d == x.d))) = true ↔
+      wk.any (fun k => ([-1, 0, 1] : List Int).any fun of =>
+        (ywdToMd x.y of k (wdayOf (dayOf x))).m == x.m && (ywdToMd x.y of k (wdayOf (dayOf x))).d == x.d))) = true ↔
       (wk = [] ∨ (PdowOk pdow x ∧ weeknoOk { wk := wk } x)) := by
   have hwdr := wdayOf_range (dayOf x)
+  rw [weeknoOk_of _ x (by have := hx.lo; omega)]
   simp only [Bool.or_eq_true, Bool.and_eq_true, List.isEmpty_iff, List.any_eq_true]
   apply or_congr Iff.rfl
   apply and_congr
@@ -77,16 +79,15 @@ theorem lim_wk (wk pdow : List Int) (x : Inst) (hx : DateIn x) (hwk : ∀ w ∈ 
     cases pdow with
     | nil => simp
     | cons k ks => simp
-  · unfold weeknoOk
-    apply exists_congr; intro n
+  · apply exists_congr; intro n
     constructor
-    · rintro ⟨hn, h⟩
-      have := (ywdToMd_spec x hx n (hwk n hn) _ hwdr).1 ((md_eq _ _ _).1 (Bool.and_eq_true _ _ ▸ h))
-      exact ⟨hn, this.2⟩
-    · rintro ⟨hn, h⟩
-      have := (md_eq _ _ _).2 ((ywdToMd_spec x hx n (hwk n hn) _ hwdr).2 ⟨rfl, h⟩)
+    · rintro ⟨hn, of, hof, h⟩
+      have := (ywdToMd_spec x hx of (of_mem hof) n (hwk n hn) _ hwdr).1 ((md_eq _ _ _).1 (Bool.and_eq_true _ _ ▸ h))
+      exact ⟨hn, of, hof, this.2⟩
+    · rintro ⟨hn, of, hof, h⟩
+      have := (md_eq _ _ _).2 ((ywdToMd_spec x hx of (of_mem hof) n (hwk n hn) _ hwdr).2 ⟨rfl, h⟩)
       rw [Bool.and_eq_true] at this
-      exact ⟨hn, this⟩
+      exact ⟨hn, of, hof, this⟩
 
 /-- `lim_cand` for a date -/
 theorem limCand_mem (cand : List Nat) (mon : List Nat) (dom wk doy pdow : List Int) (x : Inst) (hx : DateIn x)
